@@ -102,10 +102,12 @@ pub fn run(ctx: &Ctx) {
         let smax = ctx.tier.pick(300usize, 1100usize);
         let tri = (smax + 1) * (smax + 2) / 2; // pairs (size, pos) with pos <= size; pos == size means "no special byte"
         let fills: [&[u8]; 3] = [b"a", &[0xC3, 0xA9], &[0xE2, 0x82, 0xAC]];
-        let specials: [u8; 3] = [0x00, 0xFF, 0xC3];
+        // single special bytes and PAIRS (an invalid or cut sequence directly in front of the NUL, a NUL in
+        // front of an invalid byte, two NULs)
+        let specials: [&[u8]; 9] = [&[0x00], &[0xFF], &[0xC3], &[0xC3, 0x00], &[0xFF, 0x00], &[0xE2, 0x82, 0x00], &[0x00, 0xFF], &[0x00, 0x00], &[0xF0, 0x9F, 0x00]];
         let sp = Space::new(&[tri, fills.len(), specials.len(), 4]);
         let s2 = sp.clone();
-        ctx.run_family(Family::new("c19.size_sweep", sp.size(), format!("every size 0..={} x special byte {{NUL, 0xFF, a lead byte}} at every position 0..size (or none) x fill {{'a', é, € repeated}} x input length {{size-1, size, size+1, size+300}}", smax), move |i, loc| {
+        ctx.run_family(Family::new("c19.size_sweep", sp.size(), format!("every size 0..={} x special bytes {{NUL, 0xFF, a lead byte, lead byte + NUL, 0xFF + NUL, cut 3-byte sequence + NUL, NUL + 0xFF, two NULs, cut 4-byte sequence + NUL}} at every position 0..size (or none) x fill {{'a', é, € repeated}} x input length {{size-1, size, size+1, size+300}}", smax), move |i, loc| {
             let c = s2.coords(i);
             // invert the triangular index
             let mut size = ((((8 * c[0] + 1) as f64).sqrt() - 1.0) / 2.0) as usize;
@@ -123,8 +125,10 @@ pub fn run(ctx: &Ctx) {
                 _ => size + 300,
             };
             let mut b: Vec<u8> = fills[c[1]].iter().cycle().take(n).cloned().collect();
-            if pos < size && pos < n {
-                b[pos] = specials[c[2]];
+            for (k, sb) in specials[c[2]].iter().enumerate() {
+                if pos + k < size && pos + k < n {
+                    b[pos + k] = *sb;
+                }
             }
             judge(&b, size, loc);
         }));
@@ -174,6 +178,46 @@ pub fn run(ctx: &Ctx) {
                 }
             };
             judge(&input, size, loc);
+        }));
+    }
+    // ids that a filter list nearly names: the id returned is still the clean prefix of its own bytes
+    {
+        let ids: Vec<&[u8; 4]> = vec![b"APP ", b"AP  ", b"A   ", b"    ", b"APP\0", b"AP\0 ", b" APP", b"app\0", b"APP\t", b"AP\0P"];
+        let lists: Vec<Vec<&str>> = vec![vec!["APP"], vec!["AP"], vec!["A"], vec![""], vec!["APP", "APP ", "AP", "A", "", " APP", "app", "APP\t", "AP  ", "A   ", "    "]];
+        let sp = Space::new(&[ids.len(), lists.len(), 3]);
+        let s2 = sp.clone();
+        let (ids, lists) = (&ids, &lists);
+        ctx.run_family(Family::new("c19.ids_near_filter_entries", sp.size(), "10 id byte patterns with trailing blanks / NUL / tab / case variants in the application, context or ECU position x 5 filter lists that hold the stripped or the exact spellings: whenever the message is returned, each id is the clean prefix of its own four bytes", move |i, loc| {
+            let c = s2.coords(i);
+            let m = msg_with(0x04, 1, Some(ext(MSTP_LOG, 4, "APP", "CTX")), payload_for(true, Some(MSTP_LOG), 0), None);
+            let (mut b, sites) = encode(&m);
+            let label = ["apid", "ctid", "ecu"][c[2]];
+            let o = sites.sites.iter().find(|s| s.2 == label).unwrap().0;
+            b[o..o + 4].copy_from_slice(ids[c[0]]);
+            let set: std::collections::HashSet<String> = lists[c[1]].iter().map(|s| s.to_string()).collect();
+            let f = dlt_core::filtering::ProcessedDltFilterConfig { min_log_level: None, app_ids: if c[2] == 0 { Some(set.clone()) } else { None }, context_ids: if c[2] == 1 { Some(set.clone()) } else { None }, ecu_ids: if c[2] == 2 { Some(set.clone()) } else { None }, app_id_count: 0, context_id_count: 0 };
+            let expect = clean_field(&b[o..o + 4]);
+            loc.evals += 1;
+            loc.transitions += 1;
+            loc.traces += 1;
+            loc.state(i, true);
+            match catch(|| dlt_message(&b, Some(&f), false).map(|(rest, pm)| (rest.len(), pm))) {
+                Ok(Ok((0, ParsedMessage::Item(pm)))) => {
+                    let got = match c[2] {
+                        0 => pm.extended_header.as_ref().map(|e| e.application_id.clone()),
+                        1 => pm.extended_header.as_ref().map(|e| e.context_id.clone()),
+                        _ => pm.header.ecu_id.clone(),
+                    };
+                    if got.as_deref() == Some(expect.as_str()) {
+                        loc.outcome("kept, id ok");
+                    } else {
+                        loc.outcome("wrong id");
+                        loc.violation("a filter changes the id that is returned", format!("{} bytes {} with the filter list {:?}: returned {:?}, expected {:?}", label, hex(&b[o..o + 4]), lists[c[1]], got, expect), json!({"input_hex": hex_short(&b)}));
+                    }
+                }
+                Ok(Ok((0, ParsedMessage::FilteredOut(_)))) => loc.outcome("filtered out"),
+                other => loc.violation("id bytes break message parsing", format!("{} bytes {} with a filter: {:?}", label, hex(&b[o..o + 4]), other.map(|r| r.map(|x| x.0))), json!({"input_hex": hex_short(&b)})),
+            }
         }));
     }
     // adjacent id fields: a character split across the boundary between two 4-byte fields must be
